@@ -96,6 +96,22 @@ claim("C17", "exploration",
       "from_str/parse/remove_ansi are regex-driven, outside the deductive subset (DESIGN 10).",
       "exhaustive bounded checking against an independent scanner (no deductive claim)", "DESIGN 9/C17")
 
+claim("C03", "exploration",
+      "Per-call contract of get_key/_key_name/decodable/could_be_unfinished_* proved for every byte string of every length 1..MAX+1 "
+      "(symbolic bytes, three encodings, three naming modes, full and not full): known keys named from the tables, more input asked "
+      "only for prefixes / characters that can still grow, no failure unless the bytes are neither; table facts evaluated; the "
+      "stream-level clauses are decided by the exhaustive decision-tree walk (complete for ascii, latin-1) and two-item streams.",
+      "Level is exploration because the stream-level statement has a listed known finding (prefix key followed by a non-ASCII byte "
+      "in one read); decode validity per spec/utf8.py (validated against CPython); quick tier proves lengths 1-4, MAX, MAX+1.",
+      "contract-based deductive verification on symbolic bytes (complete per call) + exhaustive decision-tree walk", "DESIGN 9/C03")
+claim("C20", "proof",
+      "Mode independence: the per-call contract of get_key (whose 'asks for more'/'raises' conditions do not mention the naming mode, "
+      "and whose bytes-mode clause is identity) is proved for each mode on symbolic bytes; table inclusion evaluated; every valid "
+      "configuration key name (finite domain, exhaustive) maps to names the decoder can produce; decision tree walked under 3 modes.",
+      "Finite config-name domain decided by exhaustive evaluation; producible names = CURTSIES_NAMES values (naming clause G2); quick "
+      "tier proves lengths 1-3 and MAX+1, thorough all.",
+      "contract-based deductive verification on symbolic bytes + exhaustive-finite evaluation of KeyMap", "DESIGN 9/C20")
+
 ALL = [f"C{i:02d}" for i in range(1, 21)]
 NA_REASON = "check not built yet in this session (work in progress; see DESIGN.md section 9 for the plan)"
 m = dict(version=1, setup_cmd="bin/setup",
